@@ -303,7 +303,8 @@ func (o *OS) open(name string) (fs.File, error) {
 		return nil, &fs.PathError{Op: "open", Path: name, Err: ErrEIO}
 	}
 	f := &simFile{os: o, name: name, spec: spec, eof: -1}
-	if spec.Kind == Regular {
+	if spec.Kind == Regular || spec.Kind == Dir {
+		// like *os.File: a directory handle can be seeked, reading it fails
 		return seekFile{f}, nil
 	}
 	return f, nil
